@@ -637,15 +637,15 @@ theorem container_text (clean : Bool) (cm : CMap) (pp : PPath) (bs : List Block)
   rw [blocks_text]; simp [lead, containerText, nn]
 
 theorem go_text (clean : Bool) (cm : CMap) : ∀ (parts : List (List Block)) (pi em : Nat),
-    spansText (buildSpans.go clean cm parts pi em) =
+    spansText (buildSpansWith.go cm clean parts pi em) =
       lead em ((parts.map (containerText clean cm)).filter (!·.isEmpty)) ++
         joinWith nn ((parts.map (containerText clean cm)).filter (!·.isEmpty)) := by
   intro parts
   induction parts with
-  | nil => intro pi em; simp [buildSpans.go, lead, joinWith]
+  | nil => intro pi em; simp [buildSpansWith.go, lead, joinWith]
   | cons part rest ih =>
     intro pi em
-    simp only [buildSpans.go, container_text, List.map_cons, List.filter_cons]
+    simp only [buildSpansWith.go, container_text, List.map_cons, List.filter_cons]
     by_cases he : (containerText clean cm part).isEmpty = true
     · simp only [he, ↓reduceIte, Bool.not_true, Bool.false_eq_true]
       exact ih (pi + 1) em
@@ -658,7 +658,7 @@ theorem go_text (clean : Bool) (cm : CMap) : ∀ (parts : List (List Block)) (pi
 
 /-- The text the engine indexes equals the text the client reads, in both views. -/
 theorem mapperText_eq_extractText (clean : Bool) (d : Document) : mapperText clean d = extractText clean d := by
-  unfold mapperText buildSpans extractText
+  unfold mapperText buildSpans buildSpansWith extractText
   rw [go_text]
   simp [lead, nn]
 
